@@ -258,3 +258,24 @@ def windowwhen_every_handed_window_closed(case, mismatch):
 
 
 PREDICATES['windowwhen_every_handed_window_closed'] = windowwhen_every_handed_window_closed
+
+
+def takeuntil_error_during_pending_signal(case, mismatch):
+    """TakeUntil under concurrent inputs: the observer received the ERROR of the source between the invocation and the return of a value of the
+    signal (the Complete of the signal was waiting for the destination while the flag already suppressed values). A missing or late Complete
+    without a source error is NOT this finding."""
+    evs = case.get('events') or []
+    pending = False
+    for e in evs:
+        if e.get('e') == 'inv' and e.get('p') == 2 and e.get('k') == 'N':
+            pending = True
+        elif e.get('e') == 'ret' and e.get('p') == 2:
+            pending = False
+        elif e.get('e') == 'recv' and e.get('k') == 'E' and pending:
+            return True
+        elif e.get('e') == 'hang':
+            return False
+    return False
+
+
+PREDICATES['takeuntil_error_during_pending_signal'] = takeuntil_error_during_pending_signal
